@@ -12,7 +12,7 @@ from gmg.interp import Cell
 
 def shapes(tier):
     if tier == "quick":
-        return [(5, 4, 2, False), (6, 8, 3, True), (7, 8, 2, False), (5, 8, 0, True), (5, 4, 5, False)]
+        return [(5, 4, 2, False), (6, 8, 3, True), (7, 8, 2, False), (5, 8, 0, True), (5, 4, 5, False), (7, 12, 3, False)]
     return [(nr, nt, nsc, d) for nr, nt in ((5, 4), (6, 8), (7, 8), (9, 12)) for nsc in sorted(set((0, 2, 3, nr - 1, nr))) for d in (False, True)]
 
 
